@@ -35,6 +35,9 @@ pub struct Scenario {
     pub mid: Vec<(bool, bool)>, // (nondurable, two_phase)
     pub churn: Vec<bool>,
     pub cache: usize,
+    /// an ephemeral savepoint taken after the first commit: 0 none, 1 dropped while the other
+    /// thread is parked, 2 restored after the churn while the reader is still alive
+    pub sp: u8,
 }
 
 struct Gate {
@@ -190,6 +193,12 @@ pub fn run_scenario(sc: &Scenario) -> Result<Outcome, Failure> {
         k += 1;
         wcommit(k, false, false)?;
         wwait("setup commit")?;
+        let mut savepoint = None;
+        if sc.sp != 0 {
+            let w = db.begin_write().map_err(|e| fail("harness", format!("{e:?}")))?;
+            savepoint = Some(w.ephemeral_savepoint().map_err(|e| fail("harness", format!("ephemeral_savepoint: {e:?}")))?);
+            w.commit().map_err(|e| fail("harness", format!("{e:?}")))?;
+        }
         for nd in &sc.pre {
             k += 1;
             wcommit(k, *nd, false)?;
@@ -216,6 +225,9 @@ pub fn run_scenario(sc: &Scenario) -> Result<Outcome, Failure> {
             rwait("begin_read")?;
             rcmd(RCmd::Observe)?;
             first = rwait("first observation")?.unwrap();
+            if sc.sp == 1 {
+                drop(savepoint.take());
+            }
             gate.release();
             if !finished {
                 wwait("target commit")?;
@@ -233,6 +245,9 @@ pub fn run_scenario(sc: &Scenario) -> Result<Outcome, Failure> {
                 k += 1;
                 wcommit(k, *nd, *tp)?;
                 wwait("commit while the reader is parked")?;
+            }
+            if sc.sp == 1 {
+                drop(savepoint.take());
             }
             gate.release();
             if parked {
@@ -263,8 +278,35 @@ pub fn run_scenario(sc: &Scenario) -> Result<Outcome, Failure> {
         if again != first {
             return Err(fail("snapshot-moved", format!("the read transaction's contents changed while it was alive: first {first:?}, later {again:?}")));
         }
+        if sc.sp == 2 {
+            let sp = savepoint.take().unwrap();
+            let mut w = db.begin_write().map_err(|e| fail("harness", format!("{e:?}")))?;
+            match catch(|| w.restore_savepoint(&sp)) {
+                Ok(Ok(())) => {}
+                Ok(Err(e)) => return Err(fail("restore-failed", format!("restoring a valid ephemeral savepoint failed: {e:?}"))),
+                Err(p) => return Err(fail("snapshot-freed-under-reader", format!("restore_savepoint panicked while a reader was alive: {p}"))),
+            }
+            match catch(|| w.commit()) {
+                Ok(Ok(())) => {}
+                Ok(Err(e)) => return Err(fail("sched-unexpected-error", format!("commit after restore failed: {e:?}"))),
+                Err(p) => return Err(fail("snapshot-freed-under-reader", format!("commit after restore panicked while a reader was alive: {p}"))),
+            }
+            drop(sp);
+            let rt = db.begin_read().map_err(|e| fail("harness", format!("{e:?}")))?;
+            let now = observe_read(&rt).map_err(|e| fail("restore-content", e))?;
+            drop(rt);
+            if now != (Some((1, 1)), Some((1, 1)), true) {
+                return Err(fail("restore-content", format!("after restoring the savepoint taken at commit 1 a fresh reader saw {now:?}")));
+            }
+            rcmd(RCmd::Observe)?;
+            let third = rwait("observation after the restore")?.unwrap();
+            if third != first {
+                return Err(fail("snapshot-moved", format!("the read transaction's contents changed after a savepoint restore: first {first:?}, later {third:?}")));
+            }
+        }
         rcmd(RCmd::Drop)?;
         rwait("drop")?;
+        drop(savepoint.take());
         for nd in [true, false] {
             k += 1;
             wcommit(k, nd, false)?;
@@ -279,6 +321,21 @@ pub fn run_scenario(sc: &Scenario) -> Result<Outcome, Failure> {
         }
         rcmd(RCmd::Drop)?;
         rwait("drop")?;
+        // nothing is alive any more: the pending-free lists drain and the accounting is exact
+        let mut drained = false;
+        for _ in 0..6 {
+            let a = crate::account::account(&db).map_err(|e| fail("page-accounting", format!("after the scenario: {e}")))?;
+            if a.pending_free == 0 {
+                drained = true;
+                break;
+            }
+            // an empty durable commit (a rewriting commit would add new pending frees)
+            let w = db.begin_write().map_err(|e| fail("harness", format!("{e:?}")))?;
+            w.commit().map_err(|e| fail("harness", format!("{e:?}")))?;
+        }
+        if !drained {
+            return Err(fail("pending-free-not-drained", "pages still pending free after 6 empty durable commits with nothing alive".into()));
+        }
         Ok(Outcome { parked, reader_k: Some(rk) })
     })();
     gate.armed.store(false, Ordering::SeqCst);
@@ -310,23 +367,25 @@ pub fn grid(thorough: bool) -> Vec<Scenario> {
     };
     let caches: Vec<usize> = if thorough { vec![0, 4096, 1 << 20] } else { vec![0, 1 << 20] };
     let mut out = vec![];
+    for sp in [0u8, 1, 2] {
     for cache in &caches {
         for pre in &pres {
             for churn in &churns {
                 for p in WRITER_POINTS_DURABLE {
                     for tp in [false, true] {
-                        out.push(Scenario { writer_parked: true, point: p, pre: pre.clone(), mid: vec![(false, tp)], churn: churn.clone(), cache: *cache });
+                        out.push(Scenario { writer_parked: true, point: p, pre: pre.clone(), mid: vec![(false, tp)], churn: churn.clone(), cache: *cache, sp });
                     }
                 }
                 for p in WRITER_POINTS_ND {
-                    out.push(Scenario { writer_parked: true, point: p, pre: pre.clone(), mid: vec![(true, false)], churn: churn.clone(), cache: *cache });
+                    out.push(Scenario { writer_parked: true, point: p, pre: pre.clone(), mid: vec![(true, false)], churn: churn.clone(), cache: *cache, sp });
                 }
                 let mids: Vec<Vec<(bool, bool)>> = vec![vec![(true, false)], vec![(false, false)], vec![(true, false), (true, false)], vec![(false, true), (true, false)], vec![(true, false), (false, false)]];
                 for mid in mids {
-                    out.push(Scenario { writer_parked: false, point: "read.registered", pre: pre.clone(), mid, churn: churn.clone(), cache: *cache });
+                    out.push(Scenario { writer_parked: false, point: "read.registered", pre: pre.clone(), mid, churn: churn.clone(), cache: *cache, sp });
                 }
             }
         }
+    }
     }
     out
 }
